@@ -22,7 +22,7 @@ func propC04() Property {
 		Rules: []RuleDef{
 			{ID: "C04-R1", Desc: "wrapper-transparent state tests", Min: 2, Run: c04R1},
 			{ID: "C04-R2", Desc: "early message stashed on every recovery return", Min: 2, Run: c04R2},
-			{ID: "C04-R3", Desc: "stash carried into the next chunk's state", Min: 2, Run: c04R3},
+			{ID: "C04-R3", Desc: "stash carried into the next chunk's state", Min: 1, Run: c04R3},
 			{ID: "C04-R4", Desc: "ResendRequest field binding and infinity markers", Min: 6, Run: c04R4},
 			{ID: "C04-R5", Desc: "stash drained at the next expected number", Min: 3, Run: c04R5},
 			{ID: "C04-R6", Desc: "every freshly created recovery state owns an allocated stash", Min: 1, Run: c04R6},
@@ -388,7 +388,7 @@ func c04R4(c *Ctx) {
 				isChunkGuarded := d.Implies(func(a *Atom) bool { return a.Rel == "<" && a.L.String() == os && a.R.Kind == "param" })
 				hasChunkForm := o.Any(func(x *Org) bool {
 					return x.Kind == "binop" && x.Op == token.SUB && x.Y.IsConstInt(1) && x.X.Kind == "binop" && x.X.Op == token.ADD && beginParam != nil && x.X.X.String() == beginParam.String() &&
-						x.X.Y.Kind == "field" && x.X.Y.Field.Name() == "ResendRequestChunkSize"
+						x.X.Y.Kind == "field" && cn(x.X.Y.Field) == "ResendRequestChunkSize"
 				})
 				if hasChunkForm {
 					seen["chunk"] = true
@@ -493,7 +493,7 @@ func c04R5(c *Ctx) {
 			fed := false
 			for _, cl := range Calls(fn) {
 				cal := cl.Common().StaticCallee()
-				if cal != nil && cal.Name() == "FixMsgIn" && cal.Signature.Recv() != nil && types.Identical(cal.Signature.Recv().Type(), inSess) {
+				if cal != nil && fnName(cal) == "FixMsgIn" && cal.Signature.Recv() != nil && types.Identical(cal.Signature.Recv().Type(), inSess) {
 					for _, a := range cl.Common().Args {
 						ao := p.Origin(a)
 						if ao.Kind == "lookup" && ao.Val != nil {
